@@ -1290,7 +1290,9 @@ def lax_scan(f, init, xs=None, length=None, **k):
         n = _tree_len(xs, 0) if length is None else length
     for i in range(int(n)):
         xi = _tree_axis(xs, 0, i) if xs is not None else None
-        carry, o = f(carry, xi)
+        # lax.scan hands f a pytree REBUILT from the leaves (tracers): in-place updates of the containers inside f never reach the
+        # caller's `init` - modelled by copying the containers
+        carry, o = f(tree_map(lambda leaf: leaf, carry), xi)
         outs.append(o)
     return carry, (_tree_stack(outs) if outs else None)
 
